@@ -1,4 +1,4 @@
-From Verif Require Import Lib.Base Mkvs.Trie Mkvs.BitsProofs Mkvs.AlistProofs Mkvs.TrieProofs Mkvs.HashProofs Mkvs.Overlay Mkvs.Corr Mkvs.CorrProofs.
+From Verif Require Import Lib.Base Mkvs.Trie Mkvs.BitsProofs Mkvs.AlistProofs Mkvs.TrieProofs Mkvs.HashProofs Mkvs.Overlay Mkvs.Corr Mkvs.CorrProofs Mkvs.Key Mkvs.KeySweep Mkvs.KeyProofs.
 
 (* C02 - MKVS root hash depends only on the key/value contents.
    [wf] = path-prefix discipline + canonical compression; [valid_bytes] = every
@@ -101,3 +101,48 @@ Theorem batching_irrelevant :
     last (fst (c02_go tab Nil (ops1 ++ [CCommit]))) [] = last (fst (c02_go tab Nil (ops2 ++ [CCommit]))) [].
 Proof. exact CorrProofs.batching_irrelevant. Qed.
 Print Assumptions batching_irrelevant.
+
+(* ---- the byte-wise key functions of node/key.go (Mkvs/Key.v) against the bit
+   lists of the trie model.  General for BitLength and GetBit; for Split,
+   Merge, AppendBit and CommonPrefixLen exhaustive over all packed bit strings
+   up to the stated lengths (partial: the lifting to all lengths is open). ---- *)
+Theorem k_bitlen_bits : forall k, k_bitlen k = N.of_nat (length (bits_of k)).
+Proof. exact KeyProofs.k_bitlen_bits. Qed.
+Print Assumptions k_bitlen_bits.
+
+Theorem k_getbit_bits :
+  forall k, valid_bytes k -> forall i : nat, (i < 8 * length k)%nat ->
+    k_getbit k (N.of_nat i) = bit (bits_of k) i.
+Proof. exact KeyProofs.k_getbit_bits. Qed.
+Print Assumptions k_getbit_bits.
+
+Theorem key_split_partial :
+  forall p sp, (length p <= 12)%nat -> (sp <= length p)%nat ->
+    k_split (pack p) (N.of_nat sp) (N.of_nat (length p)) = (pack (firstn sp p), pack (skipn sp p)).
+Proof. exact KeyProofs.key_split_spec. Qed.
+Print Assumptions key_split_partial.
+
+Theorem key_merge_partial :
+  forall a b, (length a + length b <= 11)%nat ->
+    k_merge (pack a) (N.of_nat (length a)) (pack b) (N.of_nat (length b)) = pack (a ++ b).
+Proof. exact KeyProofs.key_merge_spec. Qed.
+Print Assumptions key_merge_partial.
+
+Theorem key_appendbit_partial :
+  forall p v, (length p <= 14)%nat ->
+    k_appendbit (pack p) (N.of_nat (length p)) v = pack (p ++ [v]).
+Proof. exact KeyProofs.key_appendbit_spec. Qed.
+Print Assumptions key_appendbit_partial.
+
+Theorem key_cpl_partial :
+  forall a b, (length a <= 7)%nat -> (length b <= 7)%nat ->
+    k_cpl (pack a) (N.of_nat (length a)) (pack b) (N.of_nat (length b)) = N.of_nat (lcp a b).
+Proof. exact KeyProofs.key_cpl_spec. Qed.
+Print Assumptions key_cpl_partial.
+
+Theorem key_cpl_cross_byte_partial :
+  forall a j m, (length a <= 11)%nat -> (j < length a)%nat -> (m <= length a)%nat ->
+    let b := firstn m (flip_at j a) in
+    k_cpl (pack a) (N.of_nat (length a)) (pack b) (N.of_nat (length b)) = N.of_nat (lcp a b).
+Proof. exact KeyProofs.key_cpl_spec2. Qed.
+Print Assumptions key_cpl_cross_byte_partial.
